@@ -51,11 +51,12 @@ OpOf(ev) ==
 
 Kinds == {"Alloc", "SetF", "SetZ0", "Add", "Solve", "AddCal", "Apply"}
 
-(* the callback protocol: on failure exactly one invocation of the stated  *)
-(* category with a one-line message, on success none                       *)
+(* the callback protocol: on failure exactly one non-warning invocation of *)
+(* the stated category with a one-line message, on success none            *)
 CallbackOK(ev, o) ==
-    IF o.ok THEN Len(ev.cb) = 0
-    ELSE Len(ev.cb) = 1 /\ ev.cb[1].cat = o.cat /\ ev.cb[1].one = 1
+    LET cb == SelectSeq(ev.cb, LAMBDA x : x.cat # "WARNING")
+    IN IF o.ok THEN Len(cb) = 0
+       ELSE Len(cb) = 1 /\ cb[1].cat = o.cat /\ cb[1].one = 1
 
 Matches(ev, o) == (ev.ok = 1) = o.ok /\ ev.err = o.err
 
